@@ -82,46 +82,58 @@ known("KF-01", ["C01", "C02", "C03", "C04", "C08", "C10", "C11", "C12", "C13", "
       "nfa/compile.go builds byte automata for well-formed UTF-8 only (dot, classes, negated classes): a lone or truncated byte is not a width-1 U+FFFD, so every engine and view deviates from regexp on haystacks that are not valid UTF-8; repairing it means recompiling all class/dot automata with an ill-formed-byte branch",
       [{"hay": ["invalid"], "kinds_not": NOPANIC}],
       [dc("C02", ".+", b"\xc3\n"), dc("C01", r"\PL", b"\xf0\x9e\xb8"), dc("C15", None, b"") if False else {"property": "C15", "atom": ".", "full": False, "bytes": 2, "seed": 0}])
-known("KF-02", ["C01", "C02", "C03", "C04", "C08", "C10", "C12", "C14", "C15"],
-      "plain NFA simulation deviates from regexp on well-formed non-ASCII input",
-      "nfa/compile.go: (?i) folds ASCII letters only (no simple-fold orbits beyond ASCII), large and negated classes get a lone-byte 0x80-0xFF branch (\\PL accepts U+10000, \\D\\D matches inside one code point), empty matches and \\B are reported inside a code point",
-      [{"layers": ["nfa"], "hay": ["utf8"], "kinds_not": NOPANIC},
-       {"props": ["C15"], "hay": ["utf8", "ascii"], "any_of": ["foldcase", "class_wide", "class_nonascii", "nonascii_lit", "class_has_fffd"], "kinds_not": NOPANIC},
-       {"props": ["C14", "C19", "C11", "C13"], "hay": ["utf8"], "any_of": ["foldcase_nonascii", "class_wide", "class_nonascii", "nonascii_lit", "word_assert", "can_match_empty"], "kinds_not": NOPANIC}],
-      [dc("C01", "(?i)(?is:к)", "к"), dc("C02", r"\B", "aσ"), dc("C01", r"[^\x{0}-\x{7f}]{2,}", "a\u0080\x7f")])
-known("KF-03", ["C02", "C03", "C04", "C08", "C10", "C12"],
-      "plain NFA simulation deviates on ASCII input for empty alternatives / lazy empty matches / assertions inside repetitions",
-      "nfa/compile.go + nfa/pikevm.go: alternation priority with an empty branch ((?:|b) prefers b), lazy quantifiers that can match empty, look-around compiled inside loops ((a\\z)+, (\\b^b)+)",
-      [{"layers": ["nfa"], "hay": ["ascii"], "any_of": ["empty_alt", "lazy", "assert_mid", "assert_in_repeat", "word_assert", "repeat_of_empty"], "kinds_not": NOPANIC}],
-      [dc("C03", "((?:|b))", "b"), dc("C03", "([ac-eb-e]*?)", "aaeaba")])
-known("KF-04", DIFF + ["C14", "C07"],
-      "word-boundary assertions are mishandled by the optimised engines",
-      "dfa/lazy look-around handling and the two-phase capture extraction lose \\b/\\B context ((\\b) matches \"\", (?m)(b,a\\B) matches at end of text, \\B at non-zero offsets in the DFA)",
-      [{"must": ["word_assert"], "layers": ["meta", "engine", "fastpath"], "kinds_not": NOPANIC}],
-      [dc("C03", r"(\b)", ""), dc("C04", r"(?m)(b,a\B)", "b,a", n=1)])
-known("KF-05", DIFF + ["C14"],
-      "anchors that are not at the edge of the pattern (or sit inside a repetition) are ignored by DFA-based and two-phase paths",
-      "meta/findall.go two-phase FindSubmatch and dfa/lazy: ^/$/\\A/\\z compiled as look states are dropped when they are not the first/last element ((a\\z){1,2}, \\z(caaa|a), (^(ab|foo)baz){2,})",
-      [{"any_of": ["assert_mid", "assert_in_repeat"], "layers": ["meta", "engine", "fastpath"], "kinds_not": NOPANIC}],
-      [dc("C02", r"(a\z){1,2}", "aa"), dc("C03", r"\z(caaa|a)", "caaa")])
-known("KF-06", DIFF + ["C14"],
-      "lazy quantifiers lose their priority outside the plain simulation",
-      "DFA end-of-match search is leftmost-longest, one-pass DFA and reverse strategies apply greedy priority: (a)+? on \"aaa\" gives [0 3 2 3]",
-      [{"must": ["lazy"], "layers": ["meta", "engine", "fastpath"], "kinds_not": NOPANIC}],
-      [dc("C03", "(a)+?", "aaa"), dc("C02", ".*?a", "aa")])
-for sid, strat, title, wit in [
-    ("KF-10", "UseReverseSuffix", "reverse-suffix searcher: wrong start/end, false positives/negatives", dc("C02", r"\w{2,}b", "aab_aab")),
-    ("KF-11", "UseReverseSuffixSet", "reverse-suffix-set searcher: wrong spans", dc("C02", r"\w+\.(qux|md|baz)", "Z.qux_.qux")),
-    ("KF-12", "UseReverseInner", "reverse-inner searcher: wrong spans, false positives", dc("C02", ".+bb.*", "bb")),
-    ("KF-13", "UseMultilineReverseSuffix", "multiline reverse-suffix searcher: first suffix instead of greedy end, false positives", dc("C02", "(?m)^a.*ab", "aabab")),
-    ("KF-14", "UseReverseAnchored", "reverse-anchored searcher: empty/assertion handling", dc("C02", r"a*\z", "aaba aaaaAaaaaßxa")),
-    ("KF-15", "UseCompositeSearcher", "composite class searcher: overlapping adjacent classes and offsets", dc("C02", r"[\wa]{2,}[d-ga]+", "c_a")),
-]:
-    names = [strat]
-    if strat == "UseCompositeSearcher":
-        names += ["CompositeSearcher", "CompositeSequenceDFA"]
-    known(sid, DIFF, title, "meta/%s: the searcher's matching model is not the pattern's (see DESIGN.md section 11)" % strat,
-          [{"strategies": names, "kinds_not": NOPANIC}], [wit])
+fixed("FX-39", ["C01", "C02", "C04", "C15"], "eaf1d1c", "case folding beyond ASCII missing in the NFA compiler",
+      "(?i)к did not match \"к\" (the parser stores К); (?i)ς missed σ; (?i)k missed U+212A",
+      [dc("C02", "(?i)к", "к"), dc("C02", "(?i-s:ς)*", "σ"), dc("C01", "(?i)(?is:к)", "к"), dc("C01", "(?i)k", "\u212a"), dc("C01", "(?i)ςZx[\\x{80}-\\x{10ffff}]", "ςZx\U0010ffff")])
+fixed("FX-40", ["C01", "C02", "C04", "C15"], "d7ce9ce", "4-byte ranges of large classes accepted every code point sharing the lead byte",
+      "\\PL matched U+10000; \\pL, \\pN, \\p{Greek}, [\\x{0}-\\x{200}\\x{1000c}-\\x{1000d}] matched all of U+10000-U+3FFFF",
+      [dc("C01", r"\PL", "\U00010000"), dc("C01", r"\p{Greek}", "\U00010000"), dc("C02", r"[\x{0}-\x{200}\x{1000c}-\x{1000d}]", "x\U00020000")])
+known("KF-02", ["C01", "C02", "C03", "C04", "C08", "C10", "C11", "C12", "C13", "C14", "C19"],
+      "matches can begin, and negated classes can split, inside a well-formed multi-byte code point",
+      "nfa/compile.go gives dot and large negated classes (\\D, \\S, \\W, [^x]) a lone-byte branch for ill-formed input (0x80-0xBF resp. 0x80-0xFF; pinned by TestInvalidUTF8NegatedCharClass) and every engine tries a match at every byte offset, so on well-formed input ..x matches \"€x\" at offset 1, ^\\D\\D$ matches \"é\", and \\B matches between the bytes of σ; repairing it needs rune-aware start positions in all engines (the lazy DFA has no look-ahead) and a class representation that tells a stray byte from a code point's own bytes",
+      [{"hay": ["utf8"], "any_of": ["class_has_fffd", "dot", "dot_s"], "kinds_not": NOPANIC},
+       {"hay": ["utf8"], "must": ["nowordb"], "kinds_not": NOPANIC}],
+      [dc("C02", "..x", "€x"), dc("C01", r"^\D\D$", "é"), dc("C02", r"\B", "aσ@")])
+fixed("FX-43", DIFF, "caac58e", "bidirectional DFA search used for patterns with assertions",
+      "^([a-b]+)|a on \"a`ba\" enumerated [2 4] instead of [3 4]; ^([\\da]+)$|a on \"0a/\" gave [0 2]",
+      [dc("C04", "^([a-b]+)|a", "a`ba", k=2), dc("C04", r"^([\da]+)$|a", "0a/"), dc("C04", "^([a-b]{1,3})$|b", "babb")])
+known("KF-04", ["C14"], "lazy DFA mishandles word-boundary assertions when driven directly",
+      "dfa/lazy look-around handling: \\B on \"\\x00\" is found at 1 instead of 0 by FindAt and missed by the anchored search, (?:(\\B)|b|\\b) is off by one; the meta engine keeps word-boundary patterns away from the DFA paths that show it",
+      [{"props": ["C14"], "groups": ["lazydfa", "lazydfa-rev"], "must": ["word_assert"], "kinds_not": NOPANIC}],
+      [{"property": "C14", "pattern": "\\B", "cache_capacity_bytes": 2097152, "max_cache_clears": 0, "determinization_limit": 1000, "class_representatives": [0, 1], "exhaustive_len": 3}])
+fixed("FX-42", DIFF, "42938af", "inner end-of-text assertions and trailing word boundaries reached DFA-based strategies",
+      "(a$)+ on \"aaa\" gave [0 3]; a?\\zc$|c enumerated [4 6]; \\d{2,}[b-c]{2,}[^c-ca-ca]+\\B ended early under the digit prefilter",
+      [dc("C02", "(a$)+", "aaa"), dc("C04", r"a?\zc$|c", "a caacbaab"), dc("C02", r"\d{2,}[b-c]{2,}[^c-ca-ca]+\B", "09b\x0000cbbc`/. "), dc("C02", r"(a\z){1,2}", "aa"),
+       dc("C03", "(a)+?", "aaa"), dc("C02", ".*?a", "aa"), dc("C03", r"(\b)", ""), dc("C03", "((?:|b))", "b"), dc("C03", "([ac-eb-e]*?)", "aaeaba"), dc("C03", r"\z(caaa|a)", "caaa")])
+fixed("FX-30", DIFF + ["C06"], "6da56da", "reverse-suffix searcher took the first/last suffix occurrence for the match",
+      ".*aaa on \"aaa\\naKa@aaaa\" gave [4 12]; (?s:.*)aab started at the last line; [a-ab-d]?[\\db]+[b-c]+[a-d]?a enumerated [1 7] instead of [0 7]; shared PikeVM on the fallback path",
+      [dc("C02", ".*aaa", "aaa\naKa@aaaa"), dc("C02", "(?s:.*)aab", "cßa\naabab"), dc("C04", r"[a-ab-d]?[\db]+[b-c]+[a-d]?a", "ab9bbaad9ca"),
+       dc("C02", r"\w{2,}b", "aab_aab"), dc("C04", r"\d+00", "x000 1000"), dc("C04", "[a-z]+aa", "baa aaa -aaa")])
+fixed("FX-31", DIFF, "8d3de3f+4276190", "reverse-suffix-set searcher took a candidate for the match; anchors ignored",
+      "\\w+\\.(warn|aaa|aa,|azc) on \"_.warn0.warn\" gave [6 12]; .+\\.(é€|acc) on \"a.acca.acc\" was split in two; (?i)(?m)^c.*xca matched mid-line",
+      [dc("C02", r"\w+\.(warn|aaa|aa,|azc)", "_.warn0.warn"), dc("C04", r".+\.(é€|acc)", "a.acca.acc"), dc("C04", r".+\.(zaaa|cb|1a|aBba0|ab)", "a.1aca.cbaxbx.cba.zaaa", n=1),
+       dc("C02", r"\w+\.(qux|md|baz)", "Z.qux_.qux"), dc("C01", "(?i)(?m)^c.*xca", "acxxca")])
+fixed("FX-32", DIFF, "3166e93+5a1b423", "reverse-inner searcher took the first confirmed inner literal for the match",
+      "\\w+b[0-9]* on \"9ab9ab::\" gave [0 4]; .*accb[a-c]+ was split in two; .+aA.+ matched \"aaA\" in FindAll; suffix automaton searched unanchored",
+      [dc("C02", r"\w+b[0-9]*", "9ab9ab::"), dc("C04", ".*accb[a-c]+", "aaaccbaabAaccbccaccbcacaccba"), dc("C04", ".+aA.+", "aaA"), dc("C02", ".+bb.*", "bb"),
+       dc("C04", ".*ERROR[0-9]+", "ERROR123 and ERROR456")])
+fixed("FX-33", DIFF, "66a718b+1d79730", "multiline reverse-suffix searcher returned [line start, first suffix] unverified",
+      "(?m)^a.*aa on \"aaa\" gave [0 2]; (?m)^aaaa.*aa matched \"aaaaaA\"; (?m)^warn.*ab was split at the first suffix",
+      [dc("C02", "(?m)^a.*aa", "aaa"), dc("C02", "(?m)^aaaa.*aa", "aaaaaA"), dc("C04", "(?m)^warn.*ab", "warnabwarnbabwbbrr0a"), dc("C02", "(?m)^a.*ab", "aabab"),
+       dc("C02", "(?m)^xac.*Éca", "xacÉcaxaÉca")])
+fixed("FX-34", DIFF + ["C06"], "783ec9d+5063136", "reverse-anchored strategy selected for patterns with other assertions; shared PikeVM for the empty haystack",
+      "c\\p{Lu}\\B\\b\\z matched \"cÖ\"; (?:\\B)(?:\\B|a)$ matched \"a\"",
+      [dc("C01", r"c\p{Lu}\B\b\z", "cÖ"), dc("C02", r"(?:\B)(?:\B|éa9ac|a|aa)$", "a"), dc("C02", r"a*\z", "aaba aaaaAaaaaßxa")])
+fixed("FX-35", DIFF, "f8713a2", "composite sequence DFA: minimum above one treated as one; unsound skip after a failed attempt",
+      "[a-aa-bb-d]+\\d{2,} matched \"d9\"; [ax]+[by]+[ax]+[cz]+ on \"abaabac\" found nothing",
+      [dc("C02", r"[a-aa-bb-d]+\d{2,}", "d9d::`\n9"), dc("C02", "[ax]+[by]+[ax]+[cz]+", "abaabac"), dc("C04", "[xa]+[yb]+[xa]+[zc]+", "xyxyxz"),
+       dc("C02", r"[\wa]{2,}[d-ga]+", "c_a"), dc("C04", "[c-d]{2,}[a-bb-e]{2,}", "f`€fccaaaebafcaacb€bc日d`effddcdaaea", n=2)])
+fixed("FX-36", ["C17"], "12c8bae", "suffix extraction extended an inexact suffix to the left",
+      "foo(\\da) yielded the suffix \"fooa\"",
+      [{"property": "C17", "pattern": "foo(\\da)", "extractor_config": {"CrossProductLimit": 250, "MaxClassSize": 10, "MaxLiteralLen": 64, "MaxLiterals": 64}, "samples": [q("foo0a")]}])
+fixed("FX-37", ["C14"], "d952d38", "reverse lazy DFA scans reported no match for an empty region",
+      "SearchReverse(h, k, k) returned -1 for patterns that match the empty string",
+      [{"property": "C14", "pattern": "[d-e]*", "cache_capacity_bytes": 512, "max_cache_clears": 3, "determinization_limit": 20, "class_representatives": [29, 14, 22, 35], "exhaustive_len": 3}])
 
 
 fixed("FX-16", ["C02", "C04", "C11"], "058f02a", "adaptive/DFA paths assumed a match starts within 100 bytes of its end", "matches longer than 100 bytes got a late start under UseBoth/UseDFA",
@@ -166,37 +178,28 @@ for sid, strat, title, wit in [
 ]:
     known(sid, DIFF, title, "meta literal-engine bypass (%s): the multi-pattern searchers implement their own match preference" % strat,
           [{"strategies": [strat], "kinds_not": NOPANIC}], [wit])
-known("KF-08", DIFF, "an empty alternative that should win loses to a later non-empty one in the meta engine",
-      "meta/find_indices.go routes patterns to the bounded backtracker / two-phase capture path whose alternation handling prefers the consuming branch: ((?:|b)) on \"b\" gives [0 1 0 1]",
-      [{"must": ["empty_alt"], "kinds_not": NOPANIC}],
-      [dc("C03", "((?:|b))", "b")])
 fixed("FX-29", ["C14", "C12", "C13", "C02"], "f767027", "lazy DFA cache-full protocol lost the search state",
       "with a cache smaller than the automaton (CacheCapacityBytes/MaxStates at their minimum, or large Unicode classes under the default 2 MB) searches returned -1 or a stale position: transition rows of discarded states were inherited after a clear, the scan restarted from a start state, an ID-less start state indexed row 0, the reverse fallback ran the forward simulator over the reversed automaton, the anchored fallback was unanchored",
       [{"property": "C14", "pattern": "/", "cache_capacity_bytes": 0, "max_states": 1, "max_cache_clears": 5, "determinization_limit": 1000, "class_representatives": [0, 1], "exhaustive_len": 3},
        {"property": "C14", "pattern": "z", "cache_capacity_bytes": 0, "max_states": 2, "max_cache_clears": 4, "determinization_limit": 1000, "class_representatives": [0, 22, 0], "exhaustive_len": 3},
        {"property": "C14", "pattern": "[c-f0-9d-f]+[\\x{3a3}aa]+a?", "cache_capacity_bytes": 1, "max_cache_clears": 2, "determinization_limit": 1000, "class_representatives": [40, 8, 1], "exhaustive_len": 3, "extra_haystacks": [q("a9/0aa")]},
        {"property": "C14", "pattern": "(?:a|b)*a(?:a|b){8}ac", "cache_capacity_bytes": 4096, "max_cache_clears": 1, "determinization_limit": 1000, "class_representatives": [0, 1], "exhaustive_len": 4}])
-known("KF-21", ["C14"], "lazy DFA: earliest-match search falls back to the leftmost-first end; reverse scans report no match for an empty region",
-      "dfa/lazy/lazy.go: searchFirstAt gives up through nfaFallback (PikeVM leftmost-first end, not the earliest end) when the cache or the determinisation limit is exceeded; SearchReverse/SearchReverseLimited/IsMatchReverse return -1/false for end==start even when the pattern matches the empty string there (callers in meta never pass an empty region)",
-      [{"props": ["C14"], "apis": ["DFA.SearchFirstAt"], "kinds": ["POS"]},
-       {"props": ["C14"], "apis": ["DFA.SearchReverse", "DFA.SearchReverseLimited", "DFA.IsMatchReverse"], "kinds": ["FN"], "must": ["can_match_empty"]}],
-      [{"property": "C14", "pattern": "\\w+", "cache_capacity_bytes": 0, "max_states": 1, "max_cache_clears": 4, "determinization_limit": 1000, "class_representatives": [7, 26, 34], "exhaustive_len": 3},
-       {"property": "C14", "pattern": "[d-e]*", "cache_capacity_bytes": 512, "max_cache_clears": 3, "determinization_limit": 20, "class_representatives": [29, 14, 22, 35], "exhaustive_len": 3}])
+known("KF-21", ["C14"], "lazy DFA: earliest-match search falls back to the leftmost-first end",
+      "dfa/lazy/lazy.go: searchFirstAt gives up through nfaFallback (PikeVM leftmost-first end, not the earliest end) when the cache or the determinisation limit is exceeded (no caller in meta uses SearchFirstAt)",
+      [{"props": ["C14"], "apis": ["DFA.SearchFirstAt"], "kinds": ["POS"]}],
+      [{"property": "C14", "pattern": "\\w+", "cache_capacity_bytes": 0, "max_states": 1, "max_cache_clears": 4, "determinization_limit": 1000, "class_representatives": [7, 26, 34], "exhaustive_len": 3}])
 known("KF-25", ["C14"], "lazy DFA *At entry points treat the start offset as the beginning of the text for ^ / \\A",
       "dfa/lazy/start.go: the start state for at>0 is chosen from the previous byte only, so \\A matches at every offset when the DFA is driven directly (the meta engine refuses at>0 for anchored patterns before calling it)",
       [{"props": ["C14"], "groups": ["lazydfa", "lazydfa-rev"], "any_of": ["anchor"], "kinds_not": NOPANIC}],
       [{"property": "C14", "pattern": "^", "cache_capacity_bytes": 2097152, "max_cache_clears": 0, "determinization_limit": 1000, "class_representatives": [0, 0], "exhaustive_len": 3}])
-known("KF-22", ["C14"], "legacy copy-on-write capture search reports the start of an extra empty iteration",
-      "nfa/pikevm.go SearchWithCaptures/SearchWithCapturesAt/SearchWithCapturesInSpan: (a)* on \"a\" gives [[0 1] [1 1]]; the slot-table variants used by the meta engine are right",
-      [{"props": ["C14"], "apis": ["PikeVM.SearchWithCaptures", "PikeVM.SearchWithCapturesAt", "PikeVM.SearchWithCapturesInSpan"], "kinds": ["CAPS"], "must": ["capture_in_repeat"]},
-       {"props": ["C14"], "apis": ["PikeVM.SearchWithCaptures", "PikeVM.SearchWithCapturesAt"], "kinds": ["CAPS"], "must": ["can_match_empty"]}],
-      [{"property": "C14", "pattern": "(a)*", "cache_capacity_bytes": 2097152, "max_cache_clears": 3, "determinization_limit": 1000, "class_representatives": [0, 1], "exhaustive_len": 3}])
-fixed("FX-28", ["C03", "C14"], "2d09cec", "one-pass DFA ignored leftmost-first priority and treated assertions as always true",
-      "FindSubmatchIndex of ^(foo|\\d*|a) on \"a\" gave [0 1 0 1]; onepass.Search of ^(a+?) consumed the whole input; a\\bb matched \"ab\"",
-      [dc("C03", r"^(foo|\d*|a)", "a", source="branch-dispatch"), dc("C03", "^(foo|a|ba[a-a]*|bar|bar)", "bar", source="branch-dispatch"),
-       dc("C03", "^(a+?)", "aa"), dc("C03", r"^(a\bb)", "ab"),
-       {"property": "C14", "pattern": "(a+?)", "cache_capacity_bytes": 2097152, "max_cache_clears": 3, "determinization_limit": 1000, "class_representatives": [0, 1], "exhaustive_len": 3},
-       {"property": "C14", "pattern": r"(\d*|a)", "cache_capacity_bytes": 2097152, "max_cache_clears": 3, "determinization_limit": 1000, "class_representatives": [0, 1], "exhaustive_len": 3}])
+fixed("FX-38", ["C14", "C19", "C03"], "f73f1a2", "PikeVM copy-on-write captures leaked in-place writes of the preferred branch into the other one",
+      "(a)* on \"a\" gave [[0 1] [1 1]] through SearchWithCaptures*; FindSubmatch of (a)*$ on \"aa\" from offset 1 gave [1 2 2 2]",
+      [{"property": "C14", "pattern": "(a)*", "cache_capacity_bytes": 2097152, "max_cache_clears": 3, "determinization_limit": 1000, "class_representatives": [0, 1], "exhaustive_len": 3},
+       {"property": "C19", "pattern": "(a)*$", "haystacks": [q(""), q("aa")], "template": "end-anchored", "mutated": 0},
+       {"property": "C19", "pattern": "([a-a]+){2,}a", "haystacks": [q("aaa"), q("")], "template": "charclass", "mutated": 2}])
+fixed("FX-41", ["C14"], "9f64bdf", "PikeVM.SearchWithCapturesAt dropped the groups of an empty match at the end of the haystack",
+      "(a*) on \"\" gave [0 0 -1 -1]",
+      [{"property": "C14", "pattern": "(a*)", "cache_capacity_bytes": 2097152, "max_cache_clears": 0, "determinization_limit": 1000, "class_representatives": [0, 0], "exhaustive_len": 3}])
 known("KF-24", ["C14"], "bounded backtracker in longest mode / on patterns that can match empty",
       "nfa/backtrack.go applies greedy-first semantics: ((b))?? in longest mode gives [0 0]; callers avoid it for empty-matching patterns",
       [{"props": ["C14"], "groups": ["backtrack"], "any_of": ["can_match_empty", "empty_alt"], "kinds_not": NOPANIC},
